@@ -123,7 +123,8 @@ def body_protocol(ctx, length, first_ops, explicit_len):
                     d.update(pd.DataFrame({"f1": [0.5, 0.6], "f2": [1.5, 1.6]}))
                 elif op == "oracle":
                     # the labelled sample may list its columns in any order (names are compared as a set)
-                    if bool(ctx.bool(f"oracle_columns_permuted{step}")):
+                    # (decided for the first sample of a round, which fixes the column order of the collected frame)
+                    if d.oracle_data is None and length <= 4 and bool(ctx.bool(f"oracle_columns_permuted{step}")):
                         d.give_oracle_label(pd.DataFrame({"f2": [1.5], "y": [1], "f1": [0.5 + step]}))
                         ctx.witness("permuted-oracle-columns")
                     else:
